@@ -257,11 +257,13 @@ def poly_a_index(s):
     (+1 per A, -2 otherwise), shorter on ties; tails shorter than 3 are ignored."""
     n = len(s)
     best_i, best = n, 0
+    a = o = 0                      # A's and other characters in the suffix s[i:]
     for i in range(n - 1, -1, -1):
-        suf = s[i:]
-        a = suf.count("A")
-        o = len(suf) - a
-        if o * 5 <= len(suf):
+        if s[i] == "A":
+            a += 1
+        else:
+            o += 1
+        if o * 5 <= a + o:
             sc = a - 2 * o
             if sc > best:
                 best, best_i = sc, i
